@@ -216,6 +216,10 @@ let check_sinv (c : scfg) (s : sstate) : string list =
       if not (has_upsert ve || n_eq i.si_weight (sweigh c k (get_ve s ve).sv_val)) then fail "sw_weight";
       if not (has_upsert ve || List.for_all (fun v -> lt ve v) up_ves) then fail "sf_applied_older";
       List.iter (fun (v, e) -> if n_eq e.sv_info (get_ve s ve).sv_info && lt ve v then fail "sf_newest") ves) m;
+  List.iter (function
+      | WRemove (_, ve) ->
+        List.iter (fun (_, vm) -> if n_eq (get_ve s vm).sv_info (get_ve s ve).sv_info then fail "sr_detached") m
+      | _ -> ()) wq;
   let rec sorted = function a :: (b :: _ as r) -> lt a b && sorted r | _ -> true in
   if not (sorted up_ves) then fail "sf_sorted";
   let adm = List.filter (fun (_, x) -> x.si_admitted) infos in
